@@ -176,10 +176,17 @@ class IndexRaised(Exception):
     pass
 
 
+_CTX = {}
+
+
 def _M(pydrex, A, system):
     try:
         with np.errstate(all="ignore"):
-            return float(pydrex.diagnostics.misorientation_index(np.ascontiguousarray(A), system))
+            A = np.ascontiguousarray(A)
+            ctx = _CTX.get("ctx")
+            if ctx is not None and len(A) % 2 == 0:
+                A = ctx.buf("A", A)
+            return float(pydrex.diagnostics.misorientation_index(A, system))
     except AssertionError:
         raise
     except Exception as e:
@@ -188,6 +195,7 @@ def _M(pydrex, A, system):
 
 def check_case(ctx, case):
     pydrex = bootstrap.import_pydrex()
+    _CTX["ctx"] = ctx
     try:
         return {"relations": _relations, "theory": _theory, "uniform": _uniform, "single": _single,
                 "rhombohedral_call": _rhombo, "pool": _pool}[case["kind"]](ctx, pydrex, case)
